@@ -37,6 +37,7 @@ package fundraising
 // so a genesis exported in key order from a state with dense ids re-imports under the same ids into an empty store, and
 // the two sequences end at the number of imported auctions / bids per auction.
 //@ func InitGenesis
+//@ serves C01,C02,C04,C05,C06,C09,C11,C13,C16,C19
 //@ requires genesisValidAB(genState) && genesisValidVQ(genState) && genesisValidBids(genState)
 //@ requires genesisCanonAB(genState)
 //@ requires 0 <= AuctionSeq && AuctionSeq + len(genState.AuctionList) < 9223372036854775808
@@ -46,8 +47,8 @@ package fundraising
 //@ ensures [C15] no-other-auction-touched: forall(x, uint64, x < old(AuctionSeq) || x >= old(AuctionSeq) + len(genState.AuctionList) ==> Auction[x] == old(Auction[x]))
 //@ ensures [C15] allow-list-entries-filed-under-their-own-fields: result == nil ==> forall(j, int, 0 <= j && j < len(genState.AllowedBidderList) ==> let(e, genState.AllowedBidderList[j], AllowedBidder[e.AuctionId][addrOf(e.Bidder)].present && AllowedBidder[e.AuctionId][addrOf(e.Bidder)] == e))
 //@ ensures [C15] no-other-allow-list-entry-touched: forall(a, uint64, forall(ad, Addr, !exists(j, int, 0 <= j && j < len(genState.AllowedBidderList) && genState.AllowedBidderList[j].AuctionId == a && addrOf(genState.AllowedBidderList[j].Bidder) == ad) ==> AllowedBidder[a][ad] == old(AllowedBidder[a][ad])))
-//@ ensures [C15] bid-counters-advance-by-the-bids-imported: result == nil ==> forall(a, uint64, BidSeq[a] == old(BidSeq[a]) + sum(i, 0, len(genState.BidList), ite(genState.BidList[i].AuctionId == a, 1, 0)))
-//@ ensures [C15] bids-stored-under-consecutive-ids-in-list-order: result == nil ==> forall(j, int, 0 <= j && j < len(genState.BidList) ==> let(e, genState.BidList[j], let(id, old(BidSeq[e.AuctionId]) + sum(i, 0, j, ite(genState.BidList[i].AuctionId == e.AuctionId, 1, 0)) + 1, Auction[e.AuctionId].present && Bid[e.AuctionId][id].present && Bid[e.AuctionId][id].Id == id && sameExcept(Bid[e.AuctionId][id], e, Id))))
+//@ ensures [C15,C11,C19,C04,C01] bid-counters-advance-by-the-bids-imported: result == nil ==> forall(a, uint64, BidSeq[a] == old(BidSeq[a]) + sum(i, 0, len(genState.BidList), ite(genState.BidList[i].AuctionId == a, 1, 0)))
+//@ ensures [C15,C11,C19,C04,C01] bids-stored-under-consecutive-ids-in-list-order: result == nil ==> forall(j, int, 0 <= j && j < len(genState.BidList) ==> let(e, genState.BidList[j], let(id, old(BidSeq[e.AuctionId]) + sum(i, 0, j, ite(genState.BidList[i].AuctionId == e.AuctionId, 1, 0)) + 1, Auction[e.AuctionId].present && Bid[e.AuctionId][id].present && Bid[e.AuctionId][id].Id == id && sameExcept(Bid[e.AuctionId][id], e, Id))))
 //@ ensures [C15] instalments-filed-under-their-own-fields: result == nil ==> forall(j, int, 0 <= j && j < len(genState.VestingQueueList) ==> let(e, genState.VestingQueueList[j], Auction[e.AuctionId].present && VestingQueue[e.AuctionId][e.ReleaseTime].present && VestingQueue[e.AuctionId][e.ReleaseTime] == e))
 //@ ensures [C15] parameters-stored: result == nil ==> Params.present && Params.AuctionCreationFee == genState.Params.AuctionCreationFee && Params.PlaceBidFee == genState.Params.PlaceBidFee && Params.ExtendedPeriod == genState.Params.ExtendedPeriod
 //@ loop 0 invariant 0 <= idx && idx <= len(genState.AuctionList) && AuctionSeq == old(AuctionSeq) + idx
@@ -70,7 +71,7 @@ package fundraising
 // is known about the state).
 //@ func (AppModule).BeginBlock
 //@ requires Inv() && InvVQ() && InvMatched()
-//@ modifies Auction, Bid, MatchedBidsLen, VestingQueue, Bal, HookN, HookT, SetT, XferN, XferT, LastMatchTotal, LastMatchPrice
+//@ modifies Auction, Bid, MatchedBidsLen, VestingQueue, Bal, HookN, HookT, SetT, XferN, XferT, LastMatchTotal, LastMatchPrice, LastAllocHas, LastAlloc, LastRefundHas, LastRefund
 //@ ensures [C08] status-moves-only-forward: result == nil ==> forall(x, uint64, old(Auction[x]).present ==> Auction[x].present && forward(old(Auction[x]).Status, Auction[x].Status))
 //@ ensures [C08,C12] waiting-auctions-open-exactly-at-their-start-time: result == nil ==> let(dom, old(domOf(Auction)), forall(j, int, 0 <= j && j < ilistN(dom) ==> let(x, ilistKey(dom, j), old(Auction[x]).Status == AuctionStatusStandBy ==> Auction[x].Status == ite(old(Auction[x]).StartTime <= BlockTime, AuctionStatusStarted, AuctionStatusStandBy))))
 //@ ensures [C07,C08,C12] finished-and-cancelled-are-permanent-and-harmless: result == nil ==> let(dom, old(domOf(Auction)), forall(j, int, 0 <= j && j < ilistN(dom) ==> let(x, ilistKey(dom, j), old(Auction[x]).Status == AuctionStatusFinished || old(Auction[x]).Status == AuctionStatusCancelled ==> Auction[x] == old(Auction[x]))))
